@@ -70,8 +70,16 @@ impl CKBProtocolHandler for SyncProtocol {
                 let new_block = reader.to_entity().block();
                 // The block body must be committed by its (proved) header.
                 {
+                    // the extension is an extra field, the compatible check of the message didn't
+                    // look into it
+                    let is_extension_malformed = reader
+                        .block()
+                        .extra_field(0)
+                        .map(|data| packed::BytesReader::verify(data, false).is_err())
+                        .unwrap_or(false);
                     let block_view = new_block.clone().into_view_without_reset_header();
-                    if block_view.transactions_root() != block_view.calc_transactions_root()
+                    if is_extension_malformed
+                        || block_view.transactions_root() != block_view.calc_transactions_root()
                         || block_view.extra_hash() != block_view.calc_extra_hash().extra_hash()
                     {
                         warn!(
